@@ -263,6 +263,12 @@ def run_case(case, ctx, st):
         cl = [(perm[3], perm[4])] if n > 5 else []
         if n > 6 and rng.random() < 0.5:
             cl.append((perm[0], perm[5]))
+        if n > 7 and rng.random() < 0.5:
+            # "stars": one sample on the same side of several pairs of the same kind, and a repeated pair
+            ml.append((perm[6], perm[1]))
+            cl.append((perm[3], perm[7]))
+            if rng.random() < 0.3:
+                cl.append(cl[0])
         factor = float(10 ** rng.uniform(-1, 1))
         try:
             est = add_mlcl_constraint(est, ml, cl, factor)
